@@ -32,7 +32,7 @@ type coreCase struct {
 	OpName   *string                `json:"operationName,omitempty"`
 	Kind     string                 `json:"kind"`
 	Features []string               `json:"features,omitempty"`
-	Pinned   bool                   `json:"pinned,omitempty"` // this exact input is answered correctly by the unchanged tree: a failure on it is never a known finding
+	Pinned   bool                   `json:"pinned,omitempty"`  // this exact input is answered correctly by the unchanged tree: a failure on it is never a known finding
 	Sibling  string                 `json:"sibling,omitempty"` // non-empty: the document also holds `query Sibling {…}` and OpName selects the main operation
 	// Fed, when present, replaces regeneration from FedSeed: failure records and corpus files
 	// carry the federation itself, so they stay valid when the generators change.
